@@ -72,7 +72,7 @@ RecOf(j) == LET x == MnemonicOf(j.rtype)
                 n == FromWire(j.owner, 1)
                 r == ParseRd(x, j.rd)
             IN [ok |-> n.ok /\ r.ok, class |-> j.class, owner |-> IF n.ok THEN n.name ELSE <<>>,
-                ttl |-> j.ttl, t |-> x, val |-> IF r.ok THEN r.val ELSE <<>>]
+                ttl |-> j.ttl, code |-> j.rtype, t |-> x, val |-> IF r.ok THEN r.val ELSE <<>>]
 T_Record ==
   /\ IsEv("record") /\ UNCHANGED devs
   /\ LET e == Rec[l]
@@ -82,6 +82,8 @@ T_Record ==
         /\ LET free == RecEqFree(r, s) /\ e.eq = e.cmp0
                o == [eq |-> IF free THEN Free ELSE e.eq, cmp0 |-> IF free THEN Free ELSE e.cmp0,
                      canon |-> IF RecCanonPinned(r, s) THEN e.canon ELSE Free,
+                     hdr_eq |-> e.hdr_eq, parsed_eq |-> e.parsed_eq,
+                     q_eq |-> e.q_eq, q_canon |-> e.q_canon,
                      hash_ok |-> e.hash_ok, issues |-> e.issues]
            IN Matches(o, RecExp(r, s), RecDev(r, s))
 
